@@ -346,7 +346,42 @@ func (w *World) existentialShape(c operandCmp, r *Roles) (bool, string) {
 		}
 		return true, "stores true and returns on the first match, continues otherwise"
 	}
-	// outside loops: the comparison value itself is stored
+	// outside loops: the comparison value itself is stored, directly or after the arms of the cascade have been joined
+	// in a variable (`switch {case ...: eq = a == b ...}; result = Bool(eq)`): followed through phis and conversions
+	{
+		seen := map[ssa.Value]bool{}
+		var flows func(v ssa.Value, depth int) bool
+		flows = func(v ssa.Value, depth int) bool {
+			if seen[v] || depth > 6 {
+				return false
+			}
+			seen[v] = true
+			for _, rr := range referrers(v) {
+				switch x := rr.(type) {
+				case *ssa.Phi:
+					if flows(x, depth+1) {
+						return true
+					}
+				case *ssa.ChangeType:
+					if flows(x, depth+1) {
+						return true
+					}
+				case *ssa.MakeInterface:
+					if flows(x, depth+1) {
+						return true
+					}
+				case *ssa.Store:
+					if fa, ok := x.Addr.(*ssa.FieldAddr); ok && fa.Field == r.CtxResultField && x.Val == v {
+						return true
+					}
+				}
+			}
+			return false
+		}
+		if flows(c.Bo, 0) {
+			return true, "the comparison value is stored as the result"
+		}
+	}
 	for _, rr := range refs {
 		v := ssa.Value(c.Bo)
 		if ct, ok := rr.(*ssa.ChangeType); ok {
